@@ -41,7 +41,7 @@ fn project(base: Res, elem: &dyn Fn(&Value) -> Res) -> Res {
     }
 }
 
-pub const LAWS: &[&str] = &["pipe", "list-wildcard", "flatten", "slice", "filter", "object-wildcard", "multi-list", "multi-hash", "not", "and", "or", "list-wildcard-chain", "slice-chain", "flatten-chain", "list-wildcard-call", "slice-call", "flatten-call", "filter-call", "object-wildcard-call"];
+pub const LAWS: &[&str] = &["pipe", "list-wildcard", "flatten", "slice", "filter", "object-wildcard", "multi-list", "multi-hash", "not", "and", "or", "list-wildcard-chain", "slice-chain", "flatten-chain", "list-wildcard-call", "slice-call", "flatten-call", "filter-call", "object-wildcard-call", "bare-slice", "bare-reverse-slice", "bare-list-wildcard"];
 
 /// expected value of the compound from the parts' individual results
 fn expected(law: &str, l: &Expression<'_>, r: &Expression<'_>, r_in_list: &Expression<'_>, r_chain: &Expression<'_>, r_call: &Expression<'_>, d: &Value) -> Res {
@@ -67,6 +67,22 @@ fn expected(law: &str, l: &Expression<'_>, r: &Expression<'_>, r_in_list: &Expre
             });
             project(base, &|x| search(r_in_list, x))
         }
+        // a projection with nothing after it still drops the nulls of its subject (identity right-hand side)
+        "bare-slice" => {
+            let base = search(l, d).map(|v| match v {
+                Value::Array(xs) => Value::Array(xs.into_iter().skip(1).collect()),
+                _ => Value::Null,
+            });
+            project(base, &|x| Ok(x.clone()))
+        }
+        "bare-reverse-slice" => {
+            let base = search(l, d).map(|v| match v {
+                Value::Array(xs) => Value::Array(xs.into_iter().rev().collect()),
+                _ => Value::Null,
+            });
+            project(base, &|x| Ok(x.clone()))
+        }
+        "bare-list-wildcard" => project(search(l, d), &|x| Ok(x.clone())),
         "slice" => {
             let base = search(l, d).map(|v| match v {
                 Value::Array(xs) => Value::Array(xs.into_iter().skip(1).collect()),
@@ -220,6 +236,9 @@ fn compound(law: &str, l: &str, r: &str) -> String {
         "list-wildcard" => format!("({})[*].[{}, {}]", l, r, r),
         "flatten" => format!("({})[].[{}, {}]", l, r, r),
         "slice" => format!("({})[1:].[{}, {}]", l, r, r),
+        "bare-slice" => format!("({})[1:]", l),
+        "bare-reverse-slice" => format!("({})[::-1]", l),
+        "bare-list-wildcard" => format!("({})[*]", l),
         "filter" => format!("({})[?{}]", l, r),
         "object-wildcard" => format!("({}).*.[{}, {}]", l, r, r),
         "multi-list" => format!("[{}, {}]", l, r),
